@@ -4,6 +4,7 @@ C01 property theorems, class X86Mov, general-purpose forms: `mov reg, reg` for A
 (Segment / control / debug registers, the moffs forms and immediates are not in the model: `unmodelled`.)
 -/
 import AsmjitVerif.Props.C01RowsLegMem
+import AsmjitVerif.Props.C01FrontOpReg
 set_option linter.constructorNameAsVariable false
 set_option linter.unusedSimpArgs false
 set_option linter.unusedVariables false
@@ -210,5 +211,78 @@ theorem dispatch_lea (c : Model.X86.Ctx) (row : Row) (k : RegKind) (i : Nat) (m 
     (hk : k = .gpw ∨ k = .gpd ∨ k = .gpq) :
     dispatch c row 0#32 (.reg (rtypeOf k) i) (.mem m) .none .none = emitX86M c (addPrefixBySize row.mainOp (kindSize k)) 0#32 (r32 i) m 0 0 := by
   rcases hk with h | h | h <;> subst h <;> simp [dispatch, henc, sig3, Op.kind, Op.id, Op.rmSize, rtypeOf, kindSize]
+
+/-! ### class X86Mov: `mov r16|r32|r64, imm` (B8+r iw|id|iq; a 64-bit register takes this form when the value is not a sign-extended imm32) -/
+
+def movRiOpc (e : Entry) : BitVec 32 := addPrefixBySize 0xB8#32 (kindSize (e.kinds.getD 0 .none))
+
+def entryOkMovRi (e : Entry) : Bool :=
+  let r := e.rule
+  let op := movRiOpc e
+  let pp := ((op >>> 21) &&& 3#32).toNat
+  match e.rule.ops, e.kinds with
+  | [f0, f3], [k0] =>
+    let s := kindSize k0
+    e.enc == 0x2c && ((s == 2 || s == 4 || s == 8) && (r.modes &&& 2 != 0 && (r.space == 0 && (r.pp &&& 8 == 0 && (((r.pp &&& 1 != 0 || r.osz == 16) == (pp == 1)) &&
+    (((r.pp &&& 2 != 0) == (pp == 2)) && (((r.pp &&& 4 != 0) == (pp == 3)) && (r.ri && (!r.a67 && (r.modKind == 0 && (r.immBytes == s && (r.relBytes == 0 &&
+    (!r.moff && (op &&& 0xF7801C07#32 == 0#32 && (r.opcode == (op &&& 0xFF#32).toNat && (r.map == ((op >>> 8) &&& 3#32).toNat &&
+    ((wWant r == 2 || wWant r == ((op >>> 27) &&& 1#32).toNat) &&
+    (((op >>> 8) &&& 3#32 != 0#32 || [0#32, 1#32, 2#32, 3#32, 4#32, 5#32, 6#32, 7#32].all (fun r7 =>
+        !isLegacyPrefix ((op + r7).truncate 8) false && ((op + r7).truncate 8 : BitVec 8) >>> 4 != 4#8)) &&
+    (plainKind k0 && (f0.role == .opc && (noFix f0 && (formOpMatches r.oszEff f0 (.reg k0 0) &&
+    (f3.role == .imm && (!r.immRev && (immBitsOf f3 == 8 * s && !immSignCase r f3)))))))))))))))))))))))))
+  | _, _ => false
+
+theorem movri_entries_ok : lmovriChunks.all (fun c => c.all entryOkMovRi) = true := by decide +kernel
+
+/-- **front_cls_correct, class X86Mov, `mov reg, imm`** (B8+r with a 16 / 32 / 64-bit immediate): ALL registers 0..15, EVERY immediate value -/
+theorem front_cls_correct_mov_ri (e : Entry) (ch : List Entry) (hch : ch ∈ lmovriChunks) (he : e ∈ ch)
+    (ctx : Spec.X86.Ctx) (r : BitVec 32) (v : BitVec 64) (hm64 : ctx.mode64 = true) (hr : r < 16#32)
+    (himm : ∀ f3, e.rule.ops[1]? = some f3 → formOpMatches e.rule.oszEff f3 (.imm v) = true) :
+    ∃ bytes k0, e.kinds = [k0] ∧ emitX86OpReg (movRiOpc e) 0#32 r v (kindSize k0) = .ok bytes ∧
+      formOk ctx e.rule [.reg k0 r.toNat, .imm v] {} bytes = true := by
+  have hok := mem_chunks_ok movri_entries_ok e ch hch he
+  unfold entryOkMovRi at hok
+  dsimp only at hok
+  split at hok
+  · rename_i f0 f3 k0 hops hkinds
+    have m3 : formOpMatches e.rule.oszEff f3 (.imm v) = true := himm f3 (by rw [hops]; rfl)
+    simp only [Bool.and_eq_true, Bool.or_eq_true, beq_iff_eq, bne_iff_ne, ne_eq, Bool.not_eq_true', decide_eq_true_eq] at hok
+    obtain ⟨-, hs3, hmodes, hs, hpp8, h66, hF3, hF2, hri, ha67, hmk, hib, hrel, hmoff, hmask, hop, hmap, hw, hsafe, pk, r0, n0, m0, r3, hrev, hnb, hsc⟩ := hok
+    have hs' : kindSize k0 = 2 ∨ kindSize k0 = 4 ∨ kindSize k0 = 8 := by omega
+    have hal : alignOps e.rule.oszEff e.rule.ops [.reg k0 r.toNat, .imm v] = some [(f0, some (.reg k0 r.toNat)), (f3, some (.imm v))] := by
+      rw [hops]
+      exact alignOps2 _ _ _ _ _ (by rw [formOpMatches_reg_nofix _ _ _ _ n0]; exact m0) m3
+    have hn : immBytesOf (immBitsOf f3) = kindSize k0 := by
+      rw [hnb]; rcases hs' with h | h | h <;> rw [h] <;> decide
+    have hn4 : immBitsOf f3 ≠ 4 := by rw [hnb]; rcases hs' with h | h | h <;> rw [h] <;> decide
+    obtain ⟨bytes, hb, hf⟩ := opRegImm_formOk ctx e.rule (movRiOpc e) r k0 f0 f3 v v (kindSize k0) hm64 (by simpa using hmodes) hmask hr hs hpp8
+      (by simpa using h66) (by simpa using hF3) (by simpa using hF2) hri ha67 hmk hib hrel hmoff hop hmap hw
+      (by
+        intro h0 r7 hr7
+        rcases hsafe with h | h
+        · exact absurd h0 h
+        · have := all8 _ h r7 hr7
+          simp only [Bool.and_eq_true, Bool.not_eq_true', bne_iff_ne, ne_eq] at this
+          exact this)
+      (plainKind_spec _ pk) r0 (by
+        intro p hp
+        refine immConds_ok ctx e.rule p f3 v r3 hn4 hrev ?_
+        rw [hn, hp, take_emitImmediate]
+        have hsc' : (immSignOf f3 == 1 && e.rule.oszEff != 0 && decide (8 * kindSize k0 < e.rule.oszEff)) = immSignCase e.rule f3 := by
+          simp [immSignCase, hn]
+        rw [hsc', hsc]
+        simp [emitImmediate_leBytes]) hal
+    exact ⟨bytes, k0, hkinds, hb, hf⟩
+  · simp at hok
+
+/-- the class switch (no encoding options): B8+r for 16 / 32-bit registers always, for a 64-bit register when the value is not representable
+as a sign-extended imm32 (otherwise the class prefers `REX.W C7 /0 id`) -/
+theorem dispatch_mov_ri (c : Model.X86.Ctx) (row : Row) (k : RegKind) (i : Nat) (v : BitVec 64) (henc : row.encoding = 0x2c)
+    (hk : k = .gpw ∨ k = .gpd ∨ k = .gpq) (hfit : k = .gpq → isInt32of64 v = false) :
+    dispatch c row 0#32 (.reg (rtypeOf k) i) (.imm v) .none .none =
+      emitX86OpReg (addPrefixBySize 0xB8#32 (kindSize k)) 0#32 (r32 i) v (kindSize k) := by
+  rcases hk with h | h | h <;> subst h <;>
+    simp [dispatch, henc, sig3, Op.kind, Op.id, Op.rmSize, Op.isGp, Op.immVal, rtypeOf, kindSize, oLongForm, hfit]
 
 end AsmjitVerif.Props.C01
